@@ -958,11 +958,17 @@ int32_t tls13WritePreSharedKey(ssl_t *ssl,
             rc = tls13WritePskIdentity(ssl, &idBuf, psk);
             if (rc < 0)
             {
+                psDynBufUninit(&idBuf);
+                psDynBufUninit(&binderBuf);
+                psDynBufUninit(&pskBuf);
                 goto out_internal_failure;
             }
             rc = tls13WritePskBinderPlaceholder(ssl, &binderBuf, psk);
             if (rc < 0)
             {
+                psDynBufUninit(&idBuf);
+                psDynBufUninit(&binderBuf);
+                psDynBufUninit(&pskBuf);
                 goto out_internal_failure;
             }
 	next_psk:
@@ -972,6 +978,8 @@ int32_t tls13WritePreSharedKey(ssl_t *ssl,
         ids = psDynBufDetachPsSize(&idBuf, &idsLen);
         if (ids == NULL)
         {
+            psDynBufUninit(&binderBuf);
+            psDynBufUninit(&pskBuf);
             goto out_internal_failure;
         }
         psDynBufUninit(&idBuf);
@@ -986,6 +994,7 @@ int32_t tls13WritePreSharedKey(ssl_t *ssl,
         binders = psDynBufDetachPsSize(&binderBuf, &bindersLen);
         if (binders == NULL)
         {
+            psDynBufUninit(&pskBuf);
             goto out_internal_failure;
         }
         psDynBufUninit(&binderBuf);
